@@ -558,6 +558,26 @@ func (e fixEvaluator) AddConst(op0 *rlwe.Ciphertext, k uint64, opOut *rlwe.Ciphe
 	}
 }
 
+// TYPECASES control: uint is accepted by the front door and unknown to the helper
+func toFloat(v interface{}) float64 {
+	switch v := v.(type) {
+	case float64:
+		return v
+	case int:
+		return float64(v)
+	default:
+		panic("unsupported")
+	}
+}
+
+func acceptNum(x interface{}) float64 {
+	switch x := x.(type) {
+	case float64, int, uint:
+		return toFloat(x)
+	}
+	return 0
+}
+
 func rnsBad(r *ring.Ring, v uint64) (rns ring.RNSScalar) {
 	rns = make(ring.RNSScalar, r.Level()+1)
 	for i := range rns {
